@@ -558,6 +558,12 @@ func isPureExternal(fn *types.Func) bool {
 	if fn.Pkg() == nil {
 		return true
 	}
+	switch fn.FullName() {
+	case "(*net.UDPAddr).String", "(*net.UDPAddr).AddrPort", "(*net.UDPAddr).Network", "net.ParseIP", "(net.IP).String",
+		"(github.com/scionproto/scion/pkg/addr.IA).String", "github.com/scionproto/scion/pkg/addr.HostIP":
+		// read-only standard-library / address helpers
+		return true
+	}
 	p := fn.Pkg().Path()
 	for _, pre := range pureExternalPrefixes {
 		if p == pre || strings.HasPrefix(p, pre) {
@@ -783,6 +789,16 @@ func (ex *Exec) doPanic(st *State, n ast.Node) {
 				for _, m := range f0.fn.Con.MayPanic {
 					if m == msg {
 						ex.note("declared refusal by panic: " + msg)
+						st.dead = true
+						return
+					}
+				}
+			} else if len(ex.frames) == 1 {
+				// panic(<package-level error value>): declared by the value's name
+				txt := ex.src(call.Args[0])
+				for _, m := range f0.fn.Con.MayPanic {
+					if m == txt {
+						ex.note("declared refusal by panic: " + txt)
 						st.dead = true
 						return
 					}
